@@ -386,4 +386,65 @@ mod proofs {
   fn c01k_kinds_any() {
     kinds_only(false);
   }
+
+  /// C04 `failed alternatives leave no trace`, kernel form: two stub children with a
+  /// *concrete* write pattern (which variable each binds to which leaf), symbolic verdicts
+  /// and symbolic text equality of the two leaves; empty caller environment.
+  fn env_case(all: bool, w0: Option<(bool, u8)>, w1: Option<(bool, u8)>) {
+    let same_text: bool = kani::any();
+    let buf = [b'x', if same_text { b'x' } else { b'y' }];
+    let g = mk_grep(as_str(&buf, 2), two_leaf_tree(3));
+    let kids = [EnvM { verdict: kani::any(), write: w0, kinds: None }, EnvM { verdict: kani::any(), write: w1, kinds: None }];
+    let base = MetaVarEnv::new();
+    let model0 = ModelEnv { a: None, b: None };
+    let mut env = Cow::Borrowed(&base);
+    let (got, want_some, want_model) = if all {
+      let m = All::new(kids);
+      let got = m.match_node_with_env(g.root(), &mut env).is_some();
+      std::mem::forget(m);
+      let mut md = model0;
+      let ok = md.run(&kids[0], same_text) && md.run(&kids[1], same_text);
+      (got, ok, if ok { md } else { model0 })
+    } else {
+      let m = Any::new(kids);
+      let got = m.match_node_with_env(g.root(), &mut env).is_some();
+      std::mem::forget(m);
+      let mut m0 = model0;
+      let mut m1 = model0;
+      if m0.run(&kids[0], same_text) {
+        (got, true, m0)
+      } else if m1.run(&kids[1], same_text) {
+        (got, true, m1)
+      } else {
+        (got, false, model0)
+      }
+    };
+    kani::cover!(got);
+    kani::cover!(!got);
+    assert!(got == want_some);
+    assert!(observe(&env) == want_model, "any exposes exactly the winning branch, all the union, a failure nothing");
+    assert!(observe(&base) == model0);
+    std::mem::forget(env);
+    std::mem::forget(base);
+    std::mem::forget(g);
+  }
+
+  macro_rules! env_harness {
+    ($name:ident, $all:expr, $w0:expr, $w1:expr) => {
+      #[kani::proof]
+      #[kani::unwind(5)]
+      fn $name() {
+        env_case($all, $w0, $w1);
+      }
+    };
+  }
+  // A<-leaf0 then B<-leaf1 (disjoint variables)
+  env_harness!(c04k_any_a0_b1, false, Some((false, 0)), Some((true, 1)));
+  env_harness!(c04k_all_a0_b1, true, Some((false, 0)), Some((true, 1)));
+  // A<-leaf0 then A<-leaf1 (same variable: coherent only if the texts are equal)
+  env_harness!(c04k_any_a0_a1, false, Some((false, 0)), Some((false, 1)));
+  env_harness!(c04k_all_a0_a1, true, Some((false, 0)), Some((false, 1)));
+  // A<-leaf0 then nothing
+  env_harness!(c04k_any_a0_none, false, Some((false, 0)), None);
+  env_harness!(c04k_all_a0_none, true, Some((false, 0)), None);
 }
